@@ -90,14 +90,14 @@ Proof.
   intros ND. unfold intern_c. destruct (find_index (text_eqb t) strs) as [i|] eqn:F.
   - intros [= <- <-]. right. split; [exact ND|]. split; [exists []; rewrite app_nil_r; reflexivity|].
     destruct (find_index_some _ _ _ F) as (x & Hx & Px). apply text_eqb_eq in Px. subst x.
-    split; [unfold resolve; rewrite Nat2N.id; exact Hx|]. eapply nth_error_In; eauto.
+    split; [rewrite resolve_eq; rewrite Nat2N.id; exact Hx|]. eapply nth_error_In; eauto.
   - destruct (N.ltb_spec (N.of_nat (length strs)) cap) as [L|_]; [|discriminate].
     intros [= <- <-]. left. split.
     + apply NoDup_snoc; [exact ND|].
       intros Hin. pose proof (find_index_none _ _ F t Hin) as E.
       rewrite text_eqb_refl in E. discriminate.
     + split; [exists [t]; reflexivity|]. split; [|exact L].
-      unfold resolve. rewrite Nat2N.id, nth_error_app2, Nat.sub_diag; [reflexivity|lia].
+      rewrite resolve_eq. rewrite Nat2N.id, nth_error_app2, Nat.sub_diag; [reflexivity|lia].
 Qed.
 
 Lemma intern_c_good cap strs t k strs' :
@@ -163,7 +163,7 @@ Proof.
   pose proof (intern_all_NoDup cap ts strs ND) as NDf.
   split.
   - intros <-. congruence.
-  - intros <-. unfold resolve in R1, R2.
+  - intros <-. rewrite resolve_eq in R1, R2.
     pose proof (NoDup_nth_error_inj _ _ _ _ NDf R1 R2) as E. apply N2Nat.inj. exact E.
 Qed.
 
